@@ -200,6 +200,11 @@ def write_project(case: dict, d: Path):
     for key, fname, fmt in (("yaml", ".thailint.yaml", "yaml"), ("json", ".thailint.json", "json"), ("pyproject", "pyproject.toml", "pyproject")):
         if proj.get(key) is not None:
             (d / fname).write_text(render_doc(proj[key], fmt))
+    if proj.get("ignore_file"):
+        (d / ".thailintignore").write_text("# generated\n" + "".join(x + "\n" for x in proj["ignore_file"]))
+    sub = "pkg/" if proj.get("subdir") else ""
+    if sub:
+        (d / "pkg").mkdir()
     pre, post = [], []
     dash = proj.get("dash")
     if dash is not None:
@@ -209,8 +214,8 @@ def write_project(case: dict, d: Path):
         (pre if dash["pos"] == "global" else post).extend(["--config", fn])
     files = render_source(case["unit"], case["lang"], case["metrics"])
     for n, t in files.items():
-        (d / n).write_text(t)
-    return pre, post, sorted(files)
+        (d / (sub + n)).write_text(t)
+    return pre, post, sorted(sub + n for n in files)
 
 
 # ------------------------------------------------------------------ implementation runner
@@ -298,7 +303,9 @@ def coq_case(case: dict) -> str:
     dterm = "None" if dash is None else (f"(Some {{| d_pos := {'PosGlobal' if dash['pos'] == 'global' else 'PosCmd'}; "
                                          f"d_suffix := {coq.coq_string(dash['suffix'])}; d_file := {coq_cfile(dash['file'])} |}})")
     proj = (f"{{| p_yaml := {coq_cfile(p.get('yaml'))}; p_json := {coq_cfile(p.get('json'))}; "
-            f"p_pyproject := {coq_cfile(p.get('pyproject'))}; p_dash := {dterm} |}}")
+            f"p_pyproject := {coq_cfile(p.get('pyproject'))}; p_dash := {dterm}; "
+            f"p_ignore_file := {coq.coq_list([coq.coq_string(x) for x in (p.get('ignore_file') or [])])}; "
+            f"p_subdir := {coq.coq_bool(bool(p.get('subdir')))} |}}")
     ovs = coq.coq_list([f"({coq.coq_string(o)}, {coq_z(z)})" for o, z in case["overrides"]])
     ms = coq.coq_list([f"({coq.coq_string(k)}, {coq_z(v)})" for k, v in case["metrics"].items()])
     cmd = UNITS[case["unit"]]["cmd"] if case["via"] == "cli" else ""
@@ -455,7 +462,7 @@ def gen_body(r, unit: str, lang: str, m: dict, fname: str, allow_invalid=True) -
         if sub:
             body[lang if r.random() < 0.75 else r.choice([l for l in LANGS if l != lang])] = sub
     if u.get("ignore") and r.random() < 0.12:
-        body["ignore"] = [fname] if r.random() < 0.6 else ["unrelated_name.py"]
+        body["ignore"] = hit_list(unit, fname) if r.random() < 0.6 else ["unrelated_name.py"]
     if allow_invalid and u.get("guarded") and r.random() < 0.07:
         body[r.choice(u["guarded"])] = r.choice([0, 0, -1, -3, "four"])
     if not allow_invalid:  # a decoy section of another linter must stay valid (an invalid value there ends every run with exit 2)
@@ -466,6 +473,11 @@ def gen_body(r, unit: str, lang: str, m: dict, fname: str, allow_invalid=True) -
                 if isinstance(sub, dict) and isinstance(sub.get(opt), int):
                     sub[opt] = max(sub[opt], 1)
     return body
+
+
+def hit_list(unit: str, fname: str) -> list:
+    """patterns that take the unit's input out of the run (dry compares two files: both)"""
+    return [fname, "other_src.py"] if unit == "dry" else [fname]
 
 
 def spell(r, unit: str) -> str:
@@ -488,7 +500,7 @@ def gen_doc(r, unit: str, lang: str, m: dict, fname: str) -> dict:
     for k, v in entries:
         doc[k] = v
     if r.random() < 0.2:
-        doc["ignore"] = [fname] if r.random() < 0.6 else ["unrelated_name.py", "docs/"]
+        doc["ignore"] = hit_list(unit, fname) if r.random() < 0.6 else ["unrelated_name.py", "docs/"]
     return doc
 
 
@@ -523,8 +535,6 @@ def gen_case(r, i, unit=None) -> dict:
                 dash = {"pos": pos, "suffix": r.choice([".yaml", ".json"]), "file": UNPARSABLE}
             else:
                 dash = {"pos": pos, "suffix": r.choice([".yaml", ".yaml", ".yml", ".json"]), "file": gen_doc(r, unit, lang, m, fname)}
-            if pos == "global" and (dash["file"] in (None, UNPARSABLE) or dash["suffix"] == ".toml"):
-                dash = {"pos": pos, "suffix": ".yaml", "file": gen_doc(r, unit, lang, m, fname)}  # the root group validates its own file first
             proj["dash"] = dash
             via = "cli"
         if u.get("cli") and r.random() < 0.3:
@@ -534,7 +544,80 @@ def gen_case(r, i, unit=None) -> dict:
             via = "cli"
         if r.random() < 0.08:
             via = "cli"
-    return {"i": i, "unit": unit, "lang": lang, "via": via, "metrics": m, "proj": proj, "overrides": overrides, "fname": fname}
+    if r.random() < 0.08:
+        proj["ignore_file"] = hit_list(unit, fname) if r.random() < 0.5 else ["unrelated_name.py"]
+    case = {"i": i, "unit": unit, "lang": lang, "via": via, "metrics": m, "proj": proj, "overrides": overrides, "fname": fname}
+    if u["cmd"] and r.random() < 0.07:
+        to_subdir(case)
+    return case
+
+
+def to_subdir(case: dict) -> dict:
+    """move the linted file(s) into pkg/ (the command still runs from the project directory); ignore patterns naming the file follow"""
+    old, new = case["fname"], "pkg/" + case["fname"]
+
+    def ren(x):
+        if isinstance(x, dict):
+            return {k: ren(v) for k, v in x.items()}
+        if isinstance(x, list):
+            return [ren(v) for v in x]
+        return new if x == old else ("pkg/other_src.py" if x == "other_src.py" else x)
+    case["proj"] = ren(case["proj"])
+    pj = case["proj"]
+    if pj.get("yaml") is None and pj.get("pyproject") is None and not (pj.get("dash") and pj["dash"]["pos"] == "global"):
+        # the root will not be detected; rule-level ignore parsers rooted at the working directory (C09's subject) would still
+        # read the project directory's lists: keep those out of the modelled domain
+        pj["ignore_file"] = None
+        if isinstance(pj.get("json"), dict):
+            pj["json"].pop("ignore", None)
+    case["proj"]["subdir"] = True
+    case["fname"] = new
+    case["via"] = "cli"   # root detection only happens on the command line
+    return case
+
+
+def layout_cases():
+    """project layouts: the linted file in a sub-directory under every carrier (root detection), .thailintignore next to every
+    carrier, and a missing / unparsable / unsupported file given to the root-group --config"""
+    out = []
+
+    def base(unit, tag):
+        u = UNITS[unit]
+        lang = u["langs"][0]
+        m = {mm: METRIC_RANGE[mm][1] - 1 for _, mm, _ in u.get("limits", [])}
+        for _, mm in u.get("lists", []):
+            m[mm] = MAGIC_VALUES[-1]
+        for mm in u.get("always", []):
+            m[mm] = 1
+        return {"i": f"layout:{unit}:{tag}", "unit": unit, "lang": lang, "via": "cli", "metrics": m,
+                "proj": {"yaml": None, "json": None, "pyproject": None, "dash": None}, "overrides": [], "fname": "case_src" + EXT[lang]}
+    for unit in ("nesting", "magic-numbers", "performance"):
+        off = {unit: {"enabled": False}}
+        for tag, proj in (("yaml", {"yaml": off}), ("json", {"json": off}), ("pyproject", {"pyproject": off}),
+                          ("json+pyproject-marker", {"json": off, "pyproject": {}}),
+                          ("yaml+ignore", {"yaml": {"ignore": ["case_src" + EXT[UNITS[unit]["langs"][0]]]}}),
+                          ("cmd-config", {"dash": {"pos": "cmd", "suffix": ".json", "file": off}}),
+                          ("pyproject-marker+ignorefile", {"pyproject": {}, "ignore_file": ["case_src" + EXT[UNITS[unit]["langs"][0]]]})):
+            c = base(unit, "subdir:" + tag)
+            c["proj"].update(proj)
+            out.append(to_subdir(c))
+        for tag, proj in (("yaml", {"yaml": {unit: {}}}), ("json", {"json": {unit: {}}}), ("pyproject", {"pyproject": {unit: {}}}),
+                          ("cmd-config", {"dash": {"pos": "cmd", "suffix": ".yaml", "file": {unit: {}}}}), ("alone", {}),
+                          ("yaml-list-too", {"yaml": {"ignore": ["unrelated_name.py"]}})):
+            for hit in (True, False):
+                c = base(unit, f"ignorefile:{tag}:{hit}")
+                c["proj"].update(proj)
+                c["proj"]["ignore_file"] = [c["fname"]] if hit else ["unrelated_name.py"]
+                c["via"] = "cli" if (tag == "cmd-config" or hit) else "api"
+                out.append(c)
+        for tag, dash in (("missing", {"pos": "global", "suffix": ".yaml", "file": None}),
+                          ("unparsable", {"pos": "global", "suffix": ".json", "file": UNPARSABLE}),
+                          ("unsupported", {"pos": "global", "suffix": ".toml", "file": off})):
+            c = base(unit, "global-config:" + tag)
+            c["proj"]["dash"] = dash
+            c["proj"]["yaml"] = {unit: {}}
+            out.append(c)
+    return out
 
 
 def gen_cases(seed: int, n: int):
@@ -745,6 +828,8 @@ def in_defect_class(flag: str, case: dict) -> bool:
                     if flag.startswith("invalid_top") and opt in blk and opt in sec and (isinstance(sec[opt], str) or sec[opt] <= 0):
                         return True
         return False
+    if flag == "thailint_json_is_not_a_root_marker":
+        return bool(p.get("subdir")) and p.get("yaml") is None and p.get("pyproject") is None and not (dash and dash["pos"] == "global")
     if flag == "wrong_type_swallowed":
         docs = [p.get("yaml"), p.get("json"), p.get("pyproject"), (dash or {}).get("file")]
         return any(isinstance(v, str) for d in docs if isinstance(d, dict) for sec in d.values() if isinstance(sec, dict)
@@ -769,7 +854,7 @@ def is_nontrivial(case) -> bool:
     names = {case["unit"], case["unit"].replace("-", "_")}
     sets = any(isinstance(d, dict) and (any(k in names and v for k, v in d.items()) or "ignore" in d) for d in docs)
     broken = any(d == UNPARSABLE for d in docs) or (p.get("dash") is not None and p["dash"]["file"] is None)
-    return bool(sets or broken or case["overrides"])
+    return bool(sets or broken or case["overrides"] or p.get("ignore_file"))
 
 
 def load_known_d(chk: Check):
@@ -813,13 +898,13 @@ def run(tier: str, seed: int, replay: str | None = None) -> int:
         cases = [rep["violation"]["case"]] if "case" in rep.get("violation", {}) else []
     else:
         n_rand = (480 if tier == "quick" else 5200) * min(scale, 3)
-        cases = (corpus_cases() + boundary_cases() + level_cases() + carrier_cases(seed)
+        cases = (corpus_cases() + boundary_cases() + level_cases() + carrier_cases(seed) + layout_cases()
                  + matrix_cases(seed, 0.45 if tier == "quick" else 1.0) + gen_cases(seed, n_rand))
         if tier == "quick":  # cap the number of CLI subprocesses: turn surplus option-free CLI cases into library runs
             budget = 200 * min(scale, 2)
             for c in cases:
                 if c["via"] == "cli":
-                    if budget > 0 or c["proj"]["dash"] is not None or c["overrides"] or str(c["i"]).startswith("corpus"):
+                    if budget > 0 or c["proj"]["dash"] is not None or c["overrides"] or c["proj"].get("subdir") or str(c["i"]).startswith("corpus"):
                         budget -= 1
                     else:
                         c["via"] = "api"
